@@ -184,7 +184,7 @@ def evaluate(case):
         n_sel = sum(sel)
         return Eval(V, outcome=[n_sel, hash(tuple(sel)) & 0xffff], nontrivial=0 < n_sel < len(sel), transitions=len(views))
     except Exception:
-        return Eval([Violation('exception', case, {'traceback': traceback.format_exc()[-1500:]})])
+        return Eval([sut.exc_violation(case)])
 
 
 def run(run, tier, seed):
